@@ -58,12 +58,12 @@ deriving Repr, DecidableEq
     findings/C10-new-group-users-accept-room-admin.patch) and the unchecked creation of a group
     (findings/C10-new-group-needs-room-admin.patch). -/
 def Defects.asImplemented : Defects :=
-  { newGroupUsersNeedUserAdmin := true,  -- findings/C10-new-group-users-accept-room-admin.patch
+  { newGroupUsersNeedUserAdmin := false, -- fixed in /repo: findings/C10-new-group-users-accept-room-admin.patch
     newestFirstReplay := false,          -- fixed: /repo f7a29ff
     reloadRawRights := false,            -- fixed: /repo be6bedc
     reloadDropsIncompleteRoom := false,  -- fixed: /repo ee57a96
     uidOrderReversed := false,           -- (environment parameter, not a defect)
-    groupCreationUnchecked := true }     -- findings/C10-new-group-needs-room-admin.patch
+    groupCreationUnchecked := false }    -- fixed in /repo: findings/C10-new-group-needs-room-admin.patch
 
 /-- /repo before the fixes that this check led to -/
 def Defects.beforeFixes : Defects := ⟨true, true, true, true, false, true⟩
